@@ -181,3 +181,45 @@ Proof.
   - constructor; [split; reflexivity | constructor].
   - apply Forall_forall. intros s Hs. apply in_map_iff in Hs as [p [<- _]]. exact I.
 Qed.
+
+(* ---- the fallback writer: same bytes, same final protections ... ---- *)
+Theorem fallback_write_frame ps m addr data x :
+  bytes (write_to_fallback ps m addr data) x =
+  if (addr <=? x) && (x <? addr + lenZ data) then nth (Z.to_nat (x - addr)) data 0 else bytes m x.
+Proof.
+  unfold write_to_fallback, steps_of, fallback_shape. cbn [flat_map]. rewrite app_nil_r.
+  rewrite !run_steps_app.
+  destruct (run_mprots m (pages_of ps addr (lenZ data)) 3) as [Hb1 _].
+  set (m1 := run_steps m _) in *.
+  set (m2 := run_steps m1 [Copy addr data]).
+  destruct (run_mprots m2 (pages_of ps addr (lenZ data)) 5) as [Hb3 _].
+  rewrite Hb3. unfold m2, run_steps. cbn [fold_left apply_step bytes].
+  rewrite write_bytes_spec, Hb1. reflexivity.
+Qed.
+
+Theorem fallback_final_rx ps m addr data q :
+  perms (write_to_fallback ps m addr data) q =
+  if existsb (fun p => q =? p) (pages_of ps addr (lenZ data)) then {| p_r := true; p_w := false; p_x := true |}
+  else perms m q.
+Proof.
+  unfold write_to_fallback, steps_of, fallback_shape. cbn [flat_map]. rewrite app_nil_r.
+  rewrite !run_steps_app.
+  destruct (run_mprots m (pages_of ps addr (lenZ data)) 3) as [_ Hp1].
+  set (m1 := run_steps m _) in *.
+  set (m2 := run_steps m1 [Copy addr data]).
+  destruct (run_mprots m2 (pages_of ps addr (lenZ data)) 5) as [_ Hp3].
+  rewrite Hp3. destruct (existsb _ _) eqn:E; [reflexivity|].
+  unfold m2, run_steps. cbn [fold_left apply_step perms]. rewrite Hp1, E. reflexivity.
+Qed.
+
+(* ... but NOT "executable throughout": between its two protection passes the covered pages are not executable *)
+Definition fb_m0 : mem := {| bytes := fun _ => 204; perms := fun _ => perm_of 5 |}.
+Theorem fallback_drops_exec_refuted :
+  exists ps m addr data mi q,
+    In mi (trace m (steps_of ps addr data fallback_shape)) /\ p_x (perms m q) = true /\ p_x (perms mi q) = false.
+Proof.
+  exists 4096, fb_m0, 8190, [1; 2; 3], (nth 1 (trace fb_m0 (steps_of 4096 8190 [1; 2; 3] fallback_shape)) fb_m0), 4096.
+  split; [|split; vm_compute; reflexivity].
+  apply nth_In. vm_compute. repeat constructor.
+Qed.
+
